@@ -184,8 +184,9 @@ def _worker(pid, seed, tier, indices, wid, cur, beat, q, isolated=False):
         for idx in indices:
             cur[wid] = idx
             beat[wid] = time.time()
-            plan = make_plan(prop, seed, tier, idx)
+            plan = {"family": "?"}
             try:
+                plan = make_plan(prop, seed, tier, idx)
                 if isolated:
                     kind, payload = _run_forked(prop, plan)
                     if kind == "died":
@@ -211,6 +212,11 @@ def _worker(pid, seed, tier, indices, wid, cur, beat, q, isolated=False):
         q.put(("done", wid, None))
     except BaseException as e:  # noqa: BLE001
         q.put(("fatal", wid, "%r\n%s" % (e, traceback.format_exc())))
+        try:
+            q.close()
+            q.join_thread()  # make sure the message leaves before the process does
+        except Exception:  # noqa: BLE001
+            pass
         os._exit(3)
 
 
